@@ -918,6 +918,23 @@ class DFA:
                 continue
             valid_replacers.add(transition.target)
 
+        # A state entered without consuming (behind an action step) sees the byte its predecessor did not continue with. What the predecessor does
+        # continue with never gets there: if it also starts the chained machine, which of the two it belongs to is as ambiguous as at a plain join.
+        for sub_state in sub_states:
+            for predecessor, step in self.transitions_pointing_to(sub_state, include_states=True):
+                if not step.is_fallthrough or step.error_handling or isinstance(predecessor, DFProxyState):
+                    continue
+                for transition in chained_transitions:
+                    if transition.error_handling:
+                        continue
+                    starts_on = set(transition.on_values)
+                    if DFTransition.Else in starts_on:
+                        starts_on.update(predecessor.compute_foreign_else_definition(chained_dfa.starting_state))
+                    for symbol in starts_on:
+                        continues = predecessor[symbol]
+                        if continues is not None and continues is not step and not continues.error_handling and not continues.is_fallthrough and continues.target != transition.target:
+                            raise IllegalDFAStateConflictsError("Ambiguous transitions detected while joining DFAs", continues, transition)
+
         for sub_state in sub_states:
             # Compute the "local else additions": what things that are matched by Else in the chained start state which Else in the sub_state does _not_ match.
             # Note that we only handle this in one direction; technically sub_state[Else] could refer to a smaller set than chained.start[Else] but that shouldn't
